@@ -13,8 +13,8 @@ PROCS = 4
 
 MANIFEST_ENTRY = dict(engine="EvmFees", design="§4 C07",
     technique="TLA+ spec EvmFees.tla (BigNum / 18-digit fixed point): property layer P (fee floor on provided and charged fee, fee cap >= base fee, gasUsed = max(evmGas, multiplier x gasLimit) <= gasLimit, every sender pays exactly its own gasUsed x effective price (+ its own value), the collector receives the sum, no other observed balance moves) and as-built machine M (ante decorators of both routes, up-front deduction, execution, clamp, refund); EvmFeesGen.tla enumerates a parameter grid and TLC checks M against P exhaustively (intended design passes, the machine with the DynamicFee-extension defect must fail); every grid scenario and seeded random parameter points are executed by real DeliverTx on fresh chains with those parameters; TLC trace spec decides P on the recorded balances and responses",
-    text="TLC enumerates the grid tx type x gas limit (exact need, 2x, large) x price relations to base fee and floor x MinGasMultiplier x MinGasPrice x program (transfer, calldata + access list, revert, out of gas, refund-heavy SSTORE clearing, creation), multi-message transactions of one sender and of 2-3 different senders (different programs, prices and gas limits per message), NoBaseFee, block gas limit, and Cosmos transactions with and without the DynamicFee extension option, and proves on the model that the intended design never accepts a fee below the floor and charges gas exactly; each scenario is then delivered in block 1 of a real chain whose genesis carries exactly those fee-market parameters, and the trace specification re-derives from the statement, with EVM gas known independently of the response, what gasUsed, the sender's payment and the fee collector's receipt must be.",
-    note="EVM gas of the SSTORE-clearing program is measured by re-executing the same message with MinGasMultiplier = 0 on a twin chain; scripted programs only (no precompiles, no erc20 hook failure, no staking-reward claim for fees); one transaction per chain, in block 1; CheckTx-only rules (mempool min gas price, intrinsic gas) are outside the property.")
+    text="TLC enumerates the grid tx type x gas limit (exact need, 2x, large) x price relations to base fee and floor x MinGasMultiplier x MinGasPrice x program (transfer, calldata + access list, revert, out of gas, SSTORE clearing with the refund counter below and above the EIP-3529 cap and with spare gas in the limit, creation), multi-message transactions of one sender and of 2-3 different senders (different programs, prices and gas limits per message), NoBaseFee, block gas limit, and Cosmos transactions through every entry point of the ante handler (default chain signed direct, amino-json or EIP-712; DynamicFee extension option; legacy EIP-712 chain selected by the Web3Tx extension option), and proves on the model that the intended design never accepts a fee below the floor and charges gas exactly; each scenario is then delivered in block 1 of a real chain whose genesis carries exactly those fee-market parameters, and the trace specification re-derives from the statement, with EVM gas known independently of the response, what gasUsed, the sender's payment and the fee collector's receipt must be.",
+    note="EVM gas after refunds of every scripted program, the SSTORE-clearing one included, is computed by the specification from the gas schedule (EIP-2929 / EIP-3529: refund = min(counter, consumed / 5)), never taken from the code under test; the twin execution with MinGasMultiplier = 0 is a diagnostic only; scripted programs only (no precompiles, no erc20 hook failure, no staking-reward claim for fees); one transaction per chain, in block 1; CheckTx-only rules (mempool min gas price, intrinsic gas) are outside the property.")
 
 
 def _run_scenarios(wd, scenarios, nrandom, seed, procs=PROCS):
@@ -66,6 +66,25 @@ def _clamp_expected(o, m):
         return False
     known = 21000 + 16 * int(m["nz"]) + 4 * int(m["z"]) + 2400 * int(m["alAddrs"]) + 1900 * int(m["alKeys"]) + (6 if m["prog"] == "revert" else 0)
     return int(m["gas"]) >= known and int(o["par"]["mult18"]) * int(m["gas"]) // 10**18 > known
+
+
+def _floor_only(o):
+    """a Cosmos transaction whose fee satisfies the base fee in effect but not gasLimit x MinGasPrice"""
+    c, par = o["cos"], o["par"]
+    gas, fee = int(c["gas"]), int(c["fee"])
+    base = 0 if par["noBaseFee"] else int(par["baseFee"])
+    return gas > 0 and fee // gas >= base and fee * 10**18 < int(par["mgp18"]) * gas
+
+
+def _refund_kind(o, m):
+    ex = 21000 + 16 * int(m["nz"]) + 4 * int(m["z"]) + 2400 * int(m["alAddrs"]) + 1900 * int(m["alKeys"]) + 5006 * int(m["slots"])
+    gas = int(m["gas"])
+    if gas < ex:
+        return ""
+    counter, cap = 4800 * int(m["slots"]), ex // 5
+    after = ex - min(counter, cap)
+    clamp = -(-int(o["par"]["mult18"]) * gas // 10**18)
+    return "%s,%s,%s" % ("capped" if counter > cap else "uncapped", "spare" if gas > ex else "exact", "visible" if clamp < after else "hidden")
 
 
 def run(c):
@@ -122,13 +141,26 @@ def run(c):
 
     # vacuity floors: accepted transactions of every type and every outcome
     floor = 20 if quick else 200
-    for t in ("legacy", "access", "dynamic", "multi", "cosmos-none", "cosmos-dynfee"):
-        if by_type[t] < floor:
+    for t in ("legacy", "access", "dynamic", "multi", "cosmos-none", "cosmos-dynfee", "cosmos-web3"):
+        # (the legacy EIP-712 chain is one of eight Cosmos entry points of the grid: half the floor)
+        if by_type[t] < (floor // 2 if t == "cosmos-web3" else floor):
             raise Infra("vacuous run: only %d accepted transactions of type %s" % (by_type[t], t))
     for t in ("legacy", "access", "dynamic"):
         for oc in ("success", "revert", "oog", "refund"):
             if acc[(t, oc)] < 5:
                 raise Infra("vacuous run: only %d accepted %s transactions with scripted outcome %s" % (acc[(t, oc)], t, oc))
+    # every entry point of a Cosmos transaction: accepted ones, and attempts (counted from the inputs,
+    # whatever the code answered) below a floor that only the MinGasPrice rule can enforce because
+    # the base fee in effect is satisfied
+    entry = Counter((o["cos"]["ext"], o["cos"]["sign"], o["res"]["code"] == 0) for o in txs if o["route"] == "cosmos")
+    floor_only = Counter((o["cos"]["ext"], o["cos"]["sign"]) for o in txs if o["route"] == "cosmos" and _floor_only(o))
+    for k in (("none", "direct"), ("none", "amino"), ("none", "eip712"), ("dynfee", "direct"), ("web3", "eip712")):
+        if entry[k + (True,)] < (8 if quick else 40):
+            raise Infra("vacuous run: only %d accepted Cosmos transactions through entry point %s/%s" % (entry[k + (True,)], k[0], k[1]))
+        if floor_only[k] < 3:
+            raise Infra("vacuous run: only %d Cosmos transactions through entry point %s/%s below the floor with the base fee satisfied" % (floor_only[k], k[0], k[1]))
+    c.extra["cosmos_entry_points_accepted"] = {"%s/%s" % k[:2]: v for k, v in sorted(entry.items()) if k[2]}
+    c.extra["cosmos_entry_points_below_floor_only"] = {"%s/%s" % k: v for k, v in sorted(floor_only.items())}
     nsenders = Counter(len({m["from"] for m in o["msgs"]}) for o in txs if o["res"]["code"] == 0 and o["route"] == "eth")
     for k in (2, 3):
         if nsenders[k] < (15 if quick else 100):
@@ -139,6 +171,13 @@ def run(c):
     refund = sum(1 for o in txs if o["res"]["code"] == 0 for m in o["msgs"] if m["prog"] == "sstore" and m["twinGas"] != "-1")
     if refund < 10:
         raise Infra("vacuous run: only %d accepted refund-heavy executions with a twin measurement" % refund)
+    # refunds judged by the statement: counter below / above the EIP-3529 cap, with spare gas in the
+    # limit, and the minimum-gas rule not hiding the EVM gas
+    rk = Counter(_refund_kind(o, m) for o in txs if o["res"]["code"] == 0 for m in o["msgs"] if m["prog"] == "sstore")
+    for k in ("capped,spare,visible", "uncapped,spare,visible", "capped,exact,visible", "capped,spare,hidden"):
+        if rk[k] < (5 if quick else 30):
+            raise Infra("vacuous run: only %d accepted SSTORE-clearing executions of kind %s" % (rk[k], k))
+    c.extra["refund_executions_by_kind"] = dict(sorted((k, v) for k, v in rk.items() if k))
     clamp_hi = sum(1 for o in txs if o["res"]["code"] == 0 for m in o["msgs"] if _clamp_expected(o, m))
     if clamp_hi < 10:
         raise Infra("vacuous run: the minimum-gas rule was expected to bind in only %d accepted executions" % clamp_hi)
@@ -180,7 +219,7 @@ def run(c):
     c.add_violations(confirmed)
     c.assumptions += [
         "TLC 1.8.0, the Json community module and the BigNum Java override (java/BigNum.java) are trusted",
-        "EVM gas of scripted programs is computed by the specification from the gas schedule (21000 / 53000, 16 / 4 per calldata byte, 2400 / 1900 per access-list entry, 6 for PUSH1 PUSH1 REVERT, everything for INVALID / an endless loop); only for the SSTORE-clearing program it is the gasUsed the same message reports on a twin chain with MinGasMultiplier = 0",
+        "EVM gas of scripted programs is computed by the specification from the gas schedule (21000 / 53000, 16 / 4 per calldata byte, 2400 / 1900 per access-list entry, 6 for PUSH1 PUSH1 REVERT, everything for INVALID / an endless loop; clearing a cold non-zero slot: 5006 gas and 4800 refund, the refund capped at one fifth of the gas consumed)",
         "balances are read from the bank keeper immediately before and after DeliverTx inside block 1 (before EndBlock); the fee collector receives nothing else in that interval",
         "each chain's genesis sets the fee-market parameters with EnableHeight = 1, so block 1 runs with exactly the genesis base fee",
         "P tolerates a charged Cosmos fee below a fractional floor by less than one price unit per gas (integral gas prices) and either integer rounding of multiplier x gasLimit",
